@@ -544,8 +544,6 @@ func jpfMaxBy(arguments []interface{}) (interface{}, error) {
 	node := exp.ref
 	if len(arr) == 0 {
 		return nil, nil
-	} else if len(arr) == 1 {
-		return arr[0], nil
 	}
 	start, err := intr.Execute(node, arr[0])
 	if err != nil {
@@ -640,8 +638,6 @@ func jpfMinBy(arguments []interface{}) (interface{}, error) {
 	node := exp.ref
 	if len(arr) == 0 {
 		return nil, nil
-	} else if len(arr) == 1 {
-		return arr[0], nil
 	}
 	start, err := intr.Execute(node, arr[0])
 	if err != nil {
@@ -751,8 +747,6 @@ func jpfSortBy(arguments []interface{}) (interface{}, error) {
 	exp := arguments[2].(expRef)
 	node := exp.ref
 	if len(arr) == 0 {
-		return arr, nil
-	} else if len(arr) == 1 {
 		return arr, nil
 	}
 	start, err := intr.Execute(node, arr[0])
